@@ -1400,8 +1400,8 @@ def check_c16(c, result):
     lines = []
     for i, u in enumerate(unbalanced):
         lines += [okq[i % len(okq)], u]
-    # ... and very long VALID lines (5 KB, 70 KB: past the buffer sizes a line reader is likely to have) between them
-    for nat in (120, 1700):
+    # ... and very long VALID lines (5 KB, 69 KB, 100 KB: past the buffer sizes a line reader is likely to have) between them
+    for nat in (120, 1800, 2600):
         lines.append('FROM class_declaration AS cd WHERE ' + ' && '.join('cd.getName() != "no_such_name_%d"' % k for k in range(nat)) + ' SELECT cd.getName()')
         lines.append(okq[1 % len(okq)])
     lines += [okq[0], 'FROM class_declaration AS cd SELECT cd.getName()']
